@@ -396,5 +396,10 @@ func (m orderedMounts) Swap(i, j int) {
 
 // parts returns the number of parts in the destination of a mount. Used in sorting.
 func (m orderedMounts) parts(i int) int {
-	return strings.Count(filepath.Clean(m[i].Destination), string(os.PathSeparator))
+	destination := filepath.Clean(m[i].Destination)
+	if destination == string(os.PathSeparator) {
+		// the root directory is the parent of everything else
+		return 0
+	}
+	return strings.Count(destination, string(os.PathSeparator))
 }
